@@ -1102,10 +1102,31 @@ def check_multistatus(run, d, r, failures):
 GARBAGE = [b"garbage, not a pickle", pickle.dumps(()), pickle.dumps(("",) + (1,) * 7), pickle.dumps([])]
 
 
+def plant_residue(run, rng):
+    """What a process killed inside _atomic_write leaves behind: `.Radicale.tmp-XXXXXXXX/` (empty, or holding a half-written
+    file) in a cache folder.  Not an entry (the name is no safe path component): nothing changes in the model."""
+    sub = run.cfg["sub"] if rng.random() < 0.8 else rng.randrange(3)
+    cands = [cp for cp in COLLS if sub or os.path.isdir(os.path.join(run.root, cp))]
+    if not cands:
+        return
+    cp = rng.choice(cands)
+    ns = rng.choice(["item", "item", "item", "history", "sync-token"])
+    d = os.path.join(run.croots[sub], cp, ".Radicale.cache", ns,
+                     ".Radicale.tmp-" + "".join(rng.choice("abcdefghijklmnopqrstuvwxyz0123456789_") for _ in range(8)))
+    os.makedirs(d, exist_ok=True)
+    if rng.random() < 0.5:
+        with open(os.path.join(d, rng.choice(NAMES[COLLS[cp]])), "wb") as f:
+            f.write(pickle.dumps(("half written", 1, 2))[:rng.randrange(1, 12)])
+
+
 def manipulate(run, rng, pool, counts, nxt=None, hash_only=False):
     """Between two requests of run B: do 1-3 things to the cache / the configuration."""
     for _ in range(rng.choice([1, 1, 2, 3])):
         ents = run.entries()
+        if rng.random() < 0.12:
+            plant_residue(run, rng)
+            counts["manip:residue-of-interrupted-atomic-write"] += 1
+            continue
         x = rng.random()
         if x < 0.22 and ents:
             sub, cp, n, _p = rng.choice(ents)
